@@ -1,13 +1,29 @@
 #!/usr/bin/env python3
 import json, sys
 pid = sys.argv[1]
+wave = sys.argv[2] if len(sys.argv) > 2 else ''
 p = [json.loads(l) for l in open('/verif/properties.jsonl') if json.loads(l)['id'] == pid][0]
-wt = f"/tmp/seed_{pid}"
+wt = f"/tmp/seed_{pid}{wave}"
 feat = ""
 if pid == "C19":
     feat = " (this property needs `--features serde`; serde_json and bincode are dev-dependencies, so an integration test can use them: run the suite and your demo with `--features serde`)"
 if pid == "C20":
     feat = " (this property needs `--features ndarray-bindings,nalgebra-bindings`; run the suite and your demo with those features)"
+avoid = ""
+if wave:
+    import glob, os
+    items = []
+    for d in sorted(glob.glob(f'/verif/seeded/{pid}_*')):
+        try:
+            m = json.load(open(d + '/meta.json'))
+            patch = open(d + '/patch.diff').read()
+            files = sorted(set(l[6:] for l in patch.splitlines() if l.startswith('+++ b/')))
+            first = [l for l in m.get('needs_to_manifest', '').splitlines() if l.strip() and not l.startswith('#')][:2]
+            items.append(f"  - ({', '.join(files)}) " + ' '.join(first)[:300])
+        except Exception:
+            pass
+    if items:
+        avoid = "AVOID repeating these ideas, which other engineers already delivered for this property (pick different functions / different clauses / different trigger mechanisms):\n" + "\n".join(items) + "\n\n"
 print(f"""You are a test engineer assessing how well a verification effort can detect regressions in a Rust machine-learning library (a fork of SmartCore). Your scratch copy of the repository is the git worktree {wt} (already created; work ONLY there — do not read, list or modify anything under /verif or /repo, and do not look for other people's work elsewhere on disk). The sandbox is offline: always pass `--offline` to cargo.
 
 The library is supposed to satisfy this semantic property:
@@ -17,13 +33,13 @@ The library is supposed to satisfy this semantic property:
   Scope (what it quantifies over): {p['quantifier']['text']}
   Code it is anchored in: {', '.join(p['anchors']['files'])}
 
-Task: produce TWO different, independent, realistic code changes (as a maintainer might plausibly introduce by mistake during a refactoring or "optimisation"), each of which
+{avoid}Task: produce TWO different, independent, realistic code changes (as a maintainer might plausibly introduce by mistake during a refactoring or "optimisation"), each of which
   (a) still compiles and still passes the existing unit-test suite unchanged: `cd {wt} && cargo test --lib --offline` must report 161 passed, 0 failed{feat};
   (b) makes the property above FALSE for some inputs — a genuine semantic violation of the statement within its stated scope, not a crash on out-of-scope input and not a change of unspecified behaviour;
   (c) needs something specific to manifest: an unusual but in-scope input (ties, duplicates, a particular shape, sign pattern, scale, parameter combination), a multi-step sequence of operations, a particular random schedule, or two cooperating sites that each look fine alone — NOT something ordinary use on typical data would expose at once. The two changes should touch different mechanisms (different functions / different clauses of the statement).
 Do not change test code, do not add cfg tricks, do not touch code behind `#[cfg(smartcore_verif)]` (ignore that cfg entirely), do not special-case magic values that no real bug would depend on.
 
-For each change k in {{1,2}} deliver under /tmp/seed_out/{pid}_k/ :
+For each change k in {{1,2}} deliver under /tmp/seed_out/{pid}{wave}_k/ :
   * patch.diff — `git diff` of the source change only (must apply with `git apply` to a clean checkout of the worktree's HEAD);
   * demo.rs — a self-contained integration test file (it will be copied to `tests/seed_demo.rs`; it may only use the crate's public API and the dev-dependencies) whose test(s) FAIL with the change and PASS without it, checking the property's statement (not an incidental value);
   * notes.md — which clause of the property breaks, what exactly an input needs in order to expose it, and why the existing tests do not notice.
